@@ -184,8 +184,24 @@ def run_case(rec, case):
     files = fm._deser_files(case["files"])
     periods = [(c01.uniso(a), c01.uniso(b)) for a, b in case["excl"]["periods"]]
     base = scratch_dir("c16")
+    fs_kw = {}
+    if case.get("handler_info") and layout.end_style == "disc":
+        # info_via="handler": the names carry the start only, the real coverage (wider) comes from the
+        # file handler - the harness' table answers for it
+        widen = rng_for(0, "widen", len(files))
+        files = [dict(f, t1=f["t1"] + dt.timedelta(seconds=widen.choice([0, 600, 3600, 7200]))) for f in files]
+        table = {}
+
+        def info_fn(file_info):
+            from typhon.files import FileInfo
+            f = table[os.path.abspath(file_info.path)]
+            return FileInfo(file_info.path, [f["t0"], f["t1"]], {"sat": f["sat"]} if layout.with_sat else {})
+        fs_kw = {"info_via": "handler", "_info": info_fn, "_table": table}
+        rec.count("closest.handler_info_filesets")
     try:
         reg = fm.materialise(base, layout, files, rng=rng_for(0, "junk", 0))
+        if fs_kw:
+            fs_kw.pop("_table").update({os.path.abspath(p): f for p, f in reg.items()})
         by_id = {f["id"]: p for p, f in reg.items()}
         names = [by_id[i] for i in case["excl"]["names_idx"] if i in by_id]
         excl = list(names) + list(periods)
@@ -196,7 +212,7 @@ def run_case(rec, case):
             lay0 = fm.Layout(prev[0], prev[1], prev[2], layout.end_style, with_sat=layout.with_sat,
                              wildcard=False, coverage=layout.coverage)
             fs = fm.make_fileset(base + "/elsewhere", lay0, name="F", exclude=excl or None,
-                                 handler=FileHandler(reader=reader))
+                                 handler=FileHandler(reader=reader, info=fs_kw.pop("_info", None)), **fs_kw)
             try:
                 fs.find_closest(dt.datetime(2017, 6, 1))
             except Exception:
@@ -205,7 +221,7 @@ def run_case(rec, case):
             rec.count("closest.path_reassigned_filesets")
         else:
             fs = fm.make_fileset(base, layout, name="F", exclude=excl or None,
-                                 handler=FileHandler(reader=reader))
+                                 handler=FileHandler(reader=reader, info=fs_kw.pop("_info", None)), **fs_kw)
         shared = {}
         # population history: some files (whole new directories among them) arrive while the object is
         # in use - they are held back outside the tree and moved in after the first searches
@@ -289,6 +305,8 @@ def gen_case(rng):
         k = rng.randrange(1, len(files))
         case["late_ids"] = sorted(f["id"] for f in rng.sample(files, k))
         case["late_after"] = rng.randrange(1, len(stamps) - 1)
+    if layout.end_style == "disc" and rng.random() < 0.6:
+        case["handler_info"] = True
     if rng.random() < 0.25:
         case["prev_dirs"] = rng.choice([d[0] for d in fm.DIR_LAYOUTS
                                         if not any("{sat}" in x or "*" in x for x in d[1])
